@@ -112,6 +112,7 @@ MET = {
                     ['SURFTEMP', 'AIRTEMP']),
     'height_pressure': ('PseudoNetCDF.camxfiles.height_pressure',
                         ['HGHT', 'PRES']),
+    'wind': ('PseudoNetCDF.camxfiles.wind', ['U', 'V']),
 }
 
 
@@ -171,6 +172,8 @@ def build_met_file(cfg):
                         * 5 + i
         v.units = 'x'
     f.TSTEP = 10000
+    if cfg['fmt'] == 'wind':
+        f.LSTAGGER = np.array(cfg['lstag'], dtype='>i')
     return f
 
 
@@ -474,12 +477,27 @@ def emit_layouts(out, tier, label, family='uamiv'):
     scale = 'quick' if tier == 'quick' else 'full'
     r = need_ok(run_tlc('CamxLayout_MC', workers=16, timeout=3000, heap='8g',
                         env={'PNC_EMIT': '1', 'PNC_CAMX_SCALE': scale,
-                             'PNC_CAMX_FAMILY': family}),
+                             'PNC_CAMX_FAMILY': family,
+                             'PNC_CAMX_DEV': 'none'}),
                 'CamxLayout_MC')
     out.add_tlc('CamxLayout_MC (%s): tiling, reader decision procedure on '
                 'every cut offset' % label, r)
     if r.violated:
         out.model_violation(r, 'CamxLayout_MC')
+    if family == 'met':
+        # sharpness: the legacy step-count rule of the wind reader (running
+        # total in mixed units) must violate the model's invariants
+        rd = need_ok(run_tlc('CamxLayout_MC', workers=16, timeout=3000,
+                             heap='8g',
+                             env={'PNC_EMIT': '0', 'PNC_CAMX_SCALE': scale,
+                                  'PNC_CAMX_FAMILY': family,
+                                  'PNC_CAMX_DEV': 'wind_legacy_count'}),
+                     'CamxLayout_MC wind_legacy_count')
+        out.add_tlc('CamxLayout_MC sharpness: the legacy wind step count must '
+                    'violate WindNeverFabricates/WindFullFileReadsAll', rd)
+        if not rd.violated:
+            raise Machinery('CamxLayout_MC does not distinguish the legacy '
+                            'wind step count')
     items = unique([p for p in r.prints if isinstance(p, dict) and 'recs' in p])
     if not items:
         raise Machinery('CamxLayout_MC emitted nothing')
